@@ -169,7 +169,7 @@ def run_check(pid, tier, seed):
             if st.groups is not None:
                 io = [o for outs in rvlib.run_groups(rvh, st.groups, work, st.name + ".impl") for o in outs]
             else:
-                io = rvlib.run_sharded(rvh, st.impl_lines, work, st.name + ".impl", env=st.impl_env)
+                io = rvlib.run_sharded(rvh, st.impl_lines, work, st.name + ".impl", env=st.impl_env, hang_is_outcome=True)
             if st.role == "pycheck":
                 io_raw = io
                 io = ["B:1" if st.pycheck(l, o) else "B:0 impl=" + o[:400] for l, o in zip(st.impl_lines, io_raw)]
@@ -189,6 +189,13 @@ def run_check(pid, tier, seed):
             mism = []
             for i in range(n):
                 a, b = io[i], mo[i]
+                raw_i = io_raw[i]
+                if raw_i == "NOTRUN-AFTER-HANG":
+                    continue          # the batch was killed at a hang: the lines after it were never run and say nothing
+                if raw_i == "HANG":
+                    # the code under test did not come back from this call: a failing input in its own right (no property tolerates a hang)
+                    mism.append((i, st.impl_lines[i], "HANG", mo[i] if st.role not in ("pycheck", "check") else "B:1"))
+                    continue
                 if st.canon:
                     a, b = st.canon(a), st.canon(b)
                 if st.canon_line:
@@ -234,7 +241,9 @@ def run_check(pid, tier, seed):
                     known_hit.setdefault(kid, (st.name, line, a, b))
                     continue
                 failing = None
-                if st.role in ("spec", "check", "pycheck"):
+                if a == "HANG":
+                    failing = True
+                elif st.role in ("spec", "check", "pycheck"):
                     failing = True
                 elif st.judge:
                     failing = st.judge(line, a)
